@@ -1,8 +1,11 @@
 package main
 
 import (
+	"fmt"
 	"go/constant"
 	"go/token"
+	"go/types"
+	"sort"
 	"strings"
 
 	"golang.org/x/tools/go/ssa"
@@ -15,7 +18,7 @@ func checkC09(r *Report) {
 	e := runEffect(p)
 	cmpTrusted(r)
 	pathTrusted(r)
-	r.Explain = "Thin: the set laws themselves are span arithmetic on values and are not decided. Decided are the structural conditions for 'neither operation depends on the order of its operands or of the spans inside them' and 'a set reported as empty matches no version': C09.a CANON-ORDER: the comparator canon uses to order spans is pure, reads min, minOpen, max and maxOpen of both spans (rank is derived from them) and indexes the slice being sorted; C09.b CANON-ALWAYS: every success return of Set.Union and Set.Intersect passes through canon, so the result is in canonical form whatever the order of the inputs; C09.c EMPTY-NO-MATCH: span.contains returns false for the empty rank before looking at the bounds, and Set.Empty tests exactly that rank; C09.d the nil-safety of Intersect's bound comparisons is the rule C04.7/NIL-SPAN, re-run here for the functions of set.go. Not decided: that union/intersection compute the right spans, boundary versions, prerelease admission."
+	r.Explain = "C09.e TOUCH-BOTH-FLAGS: where Set.Intersect or canon finds that the upper bound of one span equals the lower bound of another (x.max.equal(y.min) or the mirrored form), the condition that equality belongs to consults the open flag of both touching ends (x.maxOpen and y.minOpen): two spans that meet in a point share it only if neither end is open, so a test that looks at one flag only gives a different answer when the operands are swapped. Thin: the set laws themselves are span arithmetic on values and are not decided. Decided are the structural conditions for 'neither operation depends on the order of its operands or of the spans inside them' and 'a set reported as empty matches no version': C09.a CANON-ORDER: the comparator canon uses to order spans is pure, reads min, minOpen, max and maxOpen of both spans (rank is derived from them) and indexes the slice being sorted; C09.b CANON-ALWAYS: every success return of Set.Union and Set.Intersect passes through canon, so the result is in canonical form whatever the order of the inputs; C09.c EMPTY-NO-MATCH: span.contains returns false for the empty rank before looking at the bounds, and Set.Empty tests exactly that rank; C09.d the nil-safety of Intersect's bound comparisons is the rule C04.7/NIL-SPAN, re-run here for the functions of set.go. Not decided: that union/intersection compute the right spans, boundary versions, prerelease admission."
 	canon := p.lookupFn("semver.canon")
 	if canon == nil {
 		r.bad("C09.a/CANON-ORDER", "semver.canon", "", "function not found: anchor lost")
@@ -177,4 +180,119 @@ func checkC09(r *Report) {
 		}
 	}
 	r.floor("C09.d/NIL-SPAN", "dereferences of span bounds in set.go", cnt, 8)
+	touchBothFlagsRule(r, p, "C09.e/TOUCH-BOTH-FLAGS")
+}
+
+// touchBothFlagsRule: see checkC09 (C09.e).
+func touchBothFlagsRule(r *Report, p *Prog, rule string) {
+	fieldOfSpan := func(v ssa.Value) (base ssa.Value, name string) {
+		for d := 0; d < 4 && v != nil; d++ {
+			switch x := v.(type) {
+			case *ssa.Field:
+				if strings.HasSuffix(x.X.Type().String(), "semver.span") {
+					return x.X, x.X.Type().Underlying().(*types.Struct).Field(x.Field).Name()
+				}
+				return nil, ""
+			case *ssa.UnOp:
+				if fa, ok := x.X.(*ssa.FieldAddr); ok && x.Op == token.MUL {
+					if strings.HasSuffix(fa.X.Type().String(), "semver.span") {
+						return fa.X, fa.X.Type().Underlying().(*types.Pointer).Elem().Underlying().(*types.Struct).Field(fa.Field).Name()
+					}
+					return nil, ""
+				}
+				v = x.X
+			default:
+				return nil, ""
+			}
+		}
+		return nil, ""
+	}
+	n := 0
+	for _, fname := range []string{"(*semver.Set).Intersect", "semver.canon"} {
+		f := p.lookupFn(fname)
+		if f == nil {
+			r.bad(rule, fname, "", "function not found: anchor lost")
+			continue
+		}
+		perFn := 0
+		for _, b := range f.Blocks {
+			for _, in := range b.Instrs {
+				c, ok := in.(*ssa.Call)
+				if !ok || staticCalleeName(c) != "(*semver.Version).equal" || len(c.Call.Args) != 2 {
+					continue
+				}
+				xb, xf := fieldOfSpan(c.Call.Args[0])
+				yb, yf := fieldOfSpan(c.Call.Args[1])
+				if xb == nil || yb == nil || xb == yb {
+					continue
+				}
+				// only a max meeting a min is a touching point
+				if !((xf == "max" && yf == "min") || (xf == "min" && yf == "max")) {
+					continue
+				}
+				n++
+				perFn++
+				want := map[string]ssa.Value{xf + "Open": xb, yf + "Open": yb}
+				seen := map[string]bool{}
+				// the rest of the same condition: blocks that only load fields and branch
+				isCond := func(x *ssa.BasicBlock) bool {
+					for _, i2 := range x.Instrs {
+						switch i2.(type) {
+						case *ssa.FieldAddr, *ssa.Field, *ssa.UnOp, *ssa.Phi, *ssa.BinOp, *ssa.If, *ssa.Jump, *ssa.DebugRef:
+						default:
+							return false
+						}
+					}
+					return true
+				}
+				region := map[*ssa.BasicBlock]bool{b: true}
+				work := append([]*ssa.BasicBlock{}, b.Succs...)
+				for len(work) > 0 {
+					x := work[len(work)-1]
+					work = work[:len(work)-1]
+					if region[x] || !isCond(x) {
+						continue
+					}
+					region[x] = true
+					work = append(work, x.Succs...)
+				}
+				for _, b2 := range f.Blocks {
+					if !region[b2] {
+						continue
+					}
+					for _, in2 := range b2.Instrs {
+						var base ssa.Value
+						name := ""
+						switch x := in2.(type) {
+						case *ssa.Field:
+							if strings.HasSuffix(x.X.Type().String(), "semver.span") {
+								base, name = x.X, x.X.Type().Underlying().(*types.Struct).Field(x.Field).Name()
+							}
+						case *ssa.FieldAddr:
+							if strings.HasSuffix(x.X.Type().String(), "semver.span") {
+								base, name = x.X, x.X.Type().Underlying().(*types.Pointer).Elem().Underlying().(*types.Struct).Field(x.Field).Name()
+							}
+						}
+						if w, ok := want[name]; ok && w == base {
+							seen[name] = true
+						}
+					}
+				}
+				var missing []string
+				for k := range want {
+					if !seen[k] {
+						missing = append(missing, k)
+					}
+				}
+				sort.Strings(missing)
+				key := fmt.Sprintf("%s: %s meets %s #%d", fnKey(f), xf, yf, perFn)
+				if len(missing) > 0 {
+					r.bad(rule, key, p.pos(c.Pos()), fmt.Sprintf("the bounds of two spans are found equal, but the condition it belongs to never looks at %v of the span on that side: two spans that meet in a point share it only if neither end is open, so the answer differs when the operands are swapped (a half-open span meeting a closed one yields a one-point set from one side and nothing from the other)", missing))
+				} else {
+					r.ok(rule, key, p.pos(c.Pos()), "both open flags of the touching ends are consulted in the condition the equality belongs to")
+				}
+			}
+		}
+	}
+	r.floor(rule, "max-meets-min equalities in Intersect and canon", n, 2)
 }
